@@ -62,9 +62,10 @@ ADD2 = {
 }
 # rounds 11-12: new scopes and the deepened bounds (supersede the depths quoted earlier in each text)
 ADD3 = {
+ "C07": "; decoders, Stream and the encoders into sinks of fixed capacity (Ok(0) for ever once full; capacities around every hand-over point x three write sizes, 336 cases) - a call that does not return is reported by the watchdog",
  "C01": "; bounds as of round 11: automaton alphabet to depth 5 (7) from the 4-literal setup and 4 (5) from the 4-distance setup; an eleventh presentation with a memory limit equal to the dictionary in effect (automaton scope and 4096-wrap scope)",
  "C02": "; a family the format's reference decoder refuses but lzma-rs accepts - an LZMA chunk without properties after a mid-stream dictionary reset - as 544 position-polarised sequences with a uniform-verdict oracle (refused as a whole, or every member decoded exactly with positions counted from the reset); bounds as of round 11: every sequence of <= 3 (4) chunks over 94 kinds and <= 4 (5) over the 34 reduced kinds",
- "C08": "; bounds as of round 11: the grid also over every program '4 literals + <= 2 (3) symbols of the automaton alphabet', 5 (12) lc/lp/pb settings",
+ "C08": "; raw-decoder histories whose first call meets the marker and then fails at the sink (flush / first write) before a marker-less second input; bounds as of round 11: the grid also over every program '4 literals + <= 2 (3) symbols of the automaton alphabet', 5 (12) lc/lp/pb settings",
  "C09": "; bounds as of round 11: circular dictionaries 1..5 (7), accumulating histories <= 10 (13), raw-decoder dictionaries 1..7 (12)",
  "C10": "; bounds as of round 11: circular dictionaries 1..5 (7) x every limit, raw-decoder dictionaries 1..8 (11) x every limit",
  "C11": "; bounds as of round 11: automaton scope to depth 4 (5), BufReader capacities 1..4 (12); payloads whose last symbol is a match at every distance-slot boundary up to 4096 x six length classes x 2 (6) salts",
